@@ -16,21 +16,37 @@ import math
 
 import numpy as np
 
-from ..core import parity
+from ..core import max_err, parity
+from .c01 import (_copyarg, _same_value, conf_bits, is_single, kernel_phase, low_precision, rtol_for, relayout, LAYOUTS,
+                  SHIFT_CONTAINERS, make_container, container_values)
 
 RULE = ('relation instances enumerated over classes (direction focus/unfocus x method mdft/czt x array class square '
-        'even/odd, non-square, 1xN, Nx1 x output class x shift none/integer/fractional samples on either axis x relation), '
-        'smallest sizes first (4..12, embeddings up to 2.5x per axis independently, any parity), random complex fields and '
-        'real/complex masks, log-uniform wavelength/focal length/spacings.  Non-trivial: every array involved has >= 2 '
+        'even/odd, non-square, 1xN, Nx1, extreme aspect 2xN / Nx3 x output class x shift none/integer/fractional samples on either '
+        'axis x relation), smallest sizes first (4..12, thorough up to 48; embeddings up to 2.5x per axis independently, any parity), '
+        'random complex fields and real / complex / integer / boolean masks, log-uniform wavelength/focal length/spacings.  Every '
+        'instance also draws a variant: the shift is handed over as tuple (half the cases), list, float64 / float32 / int ndarray or '
+        'numpy scalars and the SAME object is used for every call of the instance; the configuration is float64 (3 in 4), float32, '
+        'or mixed (float32 data under precision 64 and vice versa); field and mask arrays come in six memory layouts.  Histories '
+        'run relation instances after shifted traffic with other wavelengths / focal lengths / spacings at the same array sizes and '
+        'after a float32 run of the same calls, without clearing the executors.  Non-trivial: every array involved has >= 2 '
         'non-zero samples (1x1 never generated); distinct = distinct descriptor (relation, class, shapes, scalars, sub-seed).')
 ASSUMPTIONS = ['the relations are consequences of the statement alone (linearity, independence of zero padding at fixed '
                'spacing, axis symmetry); no reference transform is used',
                'origin of an axis of length n is sample n//2 (C04) -- used by my own embedding placement',
                'exact band: mask of P x P samples with P*fpm_dx = lambda*f/dx (one full period of the sampled pupil), P >= pupil size',
                'with shift != 0 the embedding relation is required of moduli only (a pure output phase is allowed)',
-               'masks are passed as arrays (the property quantifies over mask arrays)']
+               'masks are passed as arrays (the property quantifies over mask arrays)',
+               'float64: 1e-9 of the reference maximum (1e-4 when the shift sits in a float32 container: numpy converts it to samples in '
+               'float32).  Single precision (complex64 data or the float32 configuration): C01\'s conditioning rule per call, '
+               'max(1e-3, 1000 eps32 * kernel phase) of the bound sum|a| / sqrt(Na Q0 Ma Q1) (to_fpm_and_back: of ||a||_2 max|mask|); '
+               'instances whose tolerance would exceed 3e-2 are excluded and counted',
+               'a zero shift is always passed as a tuple (list / ndarray zero shifts are a documented-type TypeError in mdft); int '
+               'ndarray shifts hold integer physical values',
+               'a failure seen with a non-tuple shift container is re-evaluated with an equal-valued tuple: if it then holds, the key names '
+               'the container (one key for that mechanism), otherwise the relation\'s own key is used',
+               'results are copied as soon as they are returned (a routine may hand back memory it shares with an argument)']
 REQUIRED = ['linearity', 'embedding', 'transposition', 'allpass-identity', 'mask-additivity', 'mask-linearity',
-            'babinet', 'babinet.exact-band']
+            'babinet', 'babinet.exact-band', 'history.ops']
 
 RTOL = 1e-9
 
@@ -59,7 +75,7 @@ def with_parity(n, par, lo, hi):
     return n
 
 
-ARRAY_CLASSES = ['sq:e', 'sq:o', 'nonsq', 'line:1xN', 'line:Nx1']
+ARRAY_CLASSES = ['sq:e', 'sq:o', 'nonsq', 'line:1xN', 'line:Nx1', 'extreme:2xN', 'extreme:Nx3']
 METHODS = ['mdft', 'czt']
 SHIFTS = ['0', 'int', 'frac']
 
@@ -72,6 +88,10 @@ def draw_shape(rng, cls, lo, hi):
         return (1, int(rng.integers(max(lo, 2), hi + 1)))
     if cls == 'line:Nx1':
         return (int(rng.integers(max(lo, 2), hi + 1)), 1)
+    if cls == 'extreme:2xN':                      # extreme aspect ratio: two rows, as many columns as the round allows
+        return (2, int(rng.integers(max(lo, hi - 3), hi + 1)))
+    if cls == 'extreme:Nx3':
+        return (int(rng.integers(max(lo, hi - 3), hi + 1)), 3)
     while True:
         s = (int(rng.integers(lo, hi + 1)), int(rng.integers(lo, hi + 1)))
         if s[0] != s[1]:
@@ -152,6 +172,118 @@ def rel_what(rel, route, method, g):
 
 
 RAISE_CZT_SHIFT = 'C05/fixed-sampling/czt/shift!=0'
+
+
+# ------------------------------------------------------------------------------------------ argument containers, precision
+class ShiftArg:
+    """A shift handed to prysm in one of the container types the API accepts.  The *same object* is used for every call of a
+    relation instance (tuple / list / float64, float32, int ndarray / numpy scalars); `fresh()` builds an equal-valued plain
+    tuple, used only to attribute a failure to the container."""
+
+    def __init__(self, kind, values):
+        zero = values[0] == 0 and values[1] == 0
+        if zero or (kind == 'nd-int' and not all(float(v).is_integer() for v in values)):
+            kind = 'tuple'            # a zero shift in a list / array is a documented-type error for mdft; int arrays hold integers only
+        self.kind = kind
+        self.obj = make_container(kind, values) if kind != 'tuple' else (float(values[0]), float(values[1]))
+        self.values = container_values(self.obj)
+        self.snap = _copyarg(self.obj)
+        self.lowprec = low_precision(self.obj)
+
+    def fresh(self):
+        return (self.values[0], self.values[1])
+
+    def mutated(self):
+        return isinstance(self.snap, (np.ndarray, list)) and not _same_value(self.obj, self.snap)
+
+
+def shift_kind(v, scls):
+    """Container kind of a case from its variant number: half the shifted cases keep the plain tuple."""
+    if scls == '0' or (v // 3) % 2 == 0:
+        return 'tuple'
+    return SHIFT_CONTAINERS[1 + (v // 6) % (len(SHIFT_CONTAINERS) - 1)]
+
+
+def precision_class(v):
+    """(configured precision, data precision): 3 in 4 cases float64 / float64, the rest float32 / float32, float32
+    configuration with float64 data, float64 configuration with float32 data."""
+    c = (v // 32) % 12
+    return {0: (32, 32), 1: (32, 64), 2: (64, 32)}.get(c, (64, 64))
+
+
+def to_bits(a, dbits):
+    if dbits == 32 and a.dtype.kind in 'fc':
+        return a.astype(np.complex64 if np.iscomplexobj(a) else np.float32)
+    return a
+
+
+def bound(a, in_shape, Qp):
+    """Upper bound of every output sample of a unitary-normalised transform of `a`: sum|a| / sqrt(Na Q0 Ma Q1)."""
+    return float(np.sum(np.abs(a))) / math.sqrt(in_shape[0] * Qp[0] * in_shape[1] * Qp[1])
+
+
+def single_tol(method, in_shape, idx, odx, wvl, efl, samples, shift_samples):
+    """Relative float32 tolerance of one fixed-sampling transform (C01's conditioning rule: max(1e-3, 1000 eps32 * kernel
+    phase)), relative to `bound`; None = ill-conditioned in float32 (skip + count).  Also returns the per-axis Q."""
+    Qp = tuple(wvl * efl / (n * idx * odx) for n in in_shape)
+    return rtol_for(method, True, in_shape, Qp, samples, shift_samples), Qp
+
+
+def judge(ctx, monitor, inst, sh, key, what, desc, rtol=RTOL, modulus=False, abs_tol=None, **detail):
+    """Evaluate one relation instance.  `inst(shift_object)` makes all the calls of the relation with that shift object and
+    returns (got, ref, scale) or None when prysm raised (already reported).  A failure observed with a non-tuple container
+    is re-evaluated with equal-valued fresh tuples: if it then holds, the key names the container (mechanism: the routine
+    depends on / writes into the caller's container), otherwise the plain key is used."""
+    r = inst(sh.obj)
+    if r is None:
+        return None
+    ok, err, tol, scale = _cmp(r, rtol, modulus, abs_tol)
+    ctx.observe(monitor)
+    if ok:
+        if scale > 0 and abs_tol is None:
+            res = err / scale
+            d = -17 if res <= 1e-17 else int(math.ceil(math.log10(res)))
+            ctx.event(f'passing-residual[{monitor}]<=1e{d}')
+        elif abs_tol:
+            res = err / abs_tol * RTOL
+            d = -17 if res <= 1e-17 else int(math.ceil(math.log10(res)))
+            ctx.event(f'passing-residual[{monitor}/f32]<=1e{d}')
+        return True
+    if r[0].shape != r[1].shape:
+        ctx.violation(key + '/shape', what + f': shape {r[0].shape} != expected {r[1].shape}', desc, **detail)
+        return False
+    if sh.kind != 'tuple':
+        from ..contracts import quiet
+        try:
+            r2 = inst(sh.fresh())
+        except Exception:
+            r2 = None
+        if r2 is not None and _cmp(r2, rtol, modulus, abs_tol)[0]:
+            # one mechanism, one key: the relation (kept in the text and the descriptor) is incidental, the container is the cause
+            relkey = key
+            key = f'C05/shift-container:{sh.kind}/' + ('caller-array-rewritten-in-place' if sh.mutated() else 'result-depends-on-container-type')
+            what = (f'fixed-sampling propagation / to_fpm_and_back with the shift handed over as {sh.kind} and the same object used for every '
+                    f'call of a relation: the relation fails (it holds with an equal-valued tuple); container rewritten in place: {sh.mutated()}.  '
+                    f'First seen as [{relkey}] ' + what)
+    ctx.violation(key, what, desc, err=err, tol=tol, scale=scale, **detail)
+    return False
+
+
+def _cmp(r, rtol, modulus, abs_tol):
+    got, ref = np.asarray(r[0]), np.asarray(r[1])
+    scale = r[2] if len(r) > 2 and r[2] is not None else None
+    if got.shape != ref.shape:
+        return False, float('inf'), 0.0, 0.0
+    if modulus:
+        got, ref = np.abs(got), np.abs(ref)
+    if scale is None:
+        fin = np.isfinite(ref)
+        scale = float(np.max(np.abs(ref[fin]))) if fin.any() else 0.0
+    err = max_err(got, ref)
+    tol = abs_tol if abs_tol is not None else rtol * scale
+    return bool(err <= tol), err, tol, scale
+
+
 def close(ctx, monitor, got, ref, key, what, desc, rtol=RTOL, scale=None, modulus=False, **detail):
     """ctx.close plus a by-decade histogram of the relative residual of passing comparisons (summed events)."""
     ok = ctx.close(monitor, got, ref, key, what, desc, rtol=rtol, scale=scale, modulus=modulus, **detail)
@@ -166,7 +298,8 @@ def close(ctx, monitor, got, ref, key, what, desc, rtol=RTOL, scale=None, modulu
 
 
 class Runner:
-    """Calls the real functions, turning an escaping exception into a keyed violation and a None result."""
+    """Calls the real functions, turning an escaping exception into a keyed violation and a None result.  Results are
+    copied as soon as they are returned (a routine may hand back memory it shares with an argument)."""
 
     def __init__(self, ctx, P):
         self.ctx = ctx
@@ -180,10 +313,10 @@ class Runner:
             if use_wf:
                 wf = P.Wavefront(a, wvl, idx, space='pupil' if route == 'focus' else 'psf')
                 f = wf.focus_fixed_sampling if route == 'focus' else wf.unfocus_fixed_sampling
-                out[0] = f(efl, odx, samples, shift=shift, method=method).data
+                out[0] = np.array(f(efl, odx, samples, shift=shift, method=method).data, copy=True)
             else:
                 f = P.focus_fixed_sampling if route == 'focus' else P.unfocus_fixed_sampling
-                out[0] = f(a, idx, efl, wvl, odx, samples, shift=shift, method=method)
+                out[0] = np.array(f(a, idx, efl, wvl, odx, samples, shift=shift, method=method), copy=True)
         return out[0]
 
     def tfb(self, a, dx, efl, wvl, fpm, fpm_dx, shift, method, desc, key, use_wf=False, more=False):
@@ -195,10 +328,10 @@ class Runner:
         with self.ctx.guard(rkey, desc, what=f'to_fpm_and_back(method={method})'):
             if use_wf:
                 r = P.Wavefront(a, wvl, dx).to_fpm_and_back(efl, fpm, fpm_dx, method=method, shift=shift, return_more=more)
-                out[0] = (r[0] if more else r).data
+                out[0] = np.array((r[0] if more else r).data, copy=True)
             else:
                 r = P.to_fpm_and_back(a, dx, efl, wvl, fpm, fpm_dx, shift=shift, method=method, return_more=more)
-                out[0] = r[0] if more else r
+                out[0] = np.array(r[0] if more else r, copy=True)
         return out[0]
 
 
@@ -218,18 +351,57 @@ def setup_fixed(rng, route, acls, ocls, scls, lo, hi):
     return in_shape, idx, efl, wvl, odx, samples, shift, s
 
 
+def variant(rng, scls, shift, desc, cls):
+    """Per-case variant: shift container, (configured, data) precision, memory layout -- recorded in the descriptor."""
+    v = int(rng.integers(1 << 30))
+    sh = ShiftArg(shift_kind(v, scls), shift)
+    bits, dbits = precision_class(v)
+    lay = LAYOUTS[(v // 5) % len(LAYOUTS)]
+    desc.update(shift_container=sh.kind, precision=bits, data_bits=dbits, layout=lay)
+    desc['class'] = cls + (f':shift-as-{sh.kind}' if sh.kind != 'tuple' else '') + (f':p{bits}/d{dbits}' if (bits, dbits) != (64, 64) else '') + f':{lay}'
+    return v, sh, bits, dbits, lay
+
+
+def fixed_tolerance(ctx, single, sh, method, shapes, idx, odx, wvl, efl, samples_list, s, arrays, coeffs=None):
+    """(rtol, abs_tol) for a relation between fixed-sampling calls.  float64: RTOL of the reference maximum (1e-4 when the
+    shift sits in a float32 container: numpy then converts it to samples in float32).  Single precision: C01's rule per
+    call, relative to the bound sum|a| / sqrt(Na Q0 Ma Q1) of the inputs involved; None when ill-conditioned."""
+    if not single:
+        return (1e-4 if sh.lowprec else RTOL), None
+    tot = 0.0
+    for shp, smp, a, c in zip(shapes, samples_list, arrays, coeffs or [1.0] * len(arrays)):
+        r, Qp = single_tol(method, shp, idx, odx, wvl, efl, smp, s)
+        if r is None:
+            ctx.skip('float32: kernel phase beyond the resolution of the working precision (tolerance would exceed 3e-2)')
+            return None, None
+        tot += abs(c) * r * bound(a, shp, Qp)
+    return None, tot
+
+
 # ------------------------------------------------------------------------------------------ workload
 def run(ctx):
     from prysm import propagation as P
     from prysm import fttools
+    from prysm.conf import config
+    import time
     R = Runner(ctx, P)
+    old = conf_bits()
+    secs = {}
+
+    def timed(name, f, *a):
+        t = time.time()
+        f(*a)
+        secs[name] = round(time.time() - t, 1)
     try:
-        wl_linearity(ctx, R)
-        wl_embedding(ctx, R)
-        wl_transpose(ctx, R)
-        wl_allpass(ctx, R)
-        wl_masks(ctx, R)
+        timed('linearity', wl_linearity, ctx, R)
+        timed('embedding', wl_embedding, ctx, R)
+        timed('transpose', wl_transpose, ctx, R)
+        timed('allpass', wl_allpass, ctx, R)
+        timed('masks', wl_masks, ctx, R)
+        timed('history', wl_history, ctx, R)
+        ctx.note('workload_seconds(first shard)', secs)
     finally:
+        config.precision = old
         fttools.mdft.clear()
         fttools.czt.clear()
 
@@ -242,16 +414,21 @@ def _tick(state):
         fttools.czt.clear()
 
 
-def _sizes(rnd):
-    return (4, [7, 9, 12][min(rnd, 2)])
+def _sizes(rnd, rounds=8):
+    """(lo, hi) array sizes of a round: smallest first (7, 9, 12); the thorough tier goes on to 16, 24, 32 and 48 samples."""
+    if rnd < 3:
+        return (4, [7, 9, 12][rnd])
+    f = rnd / max(rounds, 1)
+    return (4, 12 if (f < 0.3 or rounds <= 8) else (16 if f < 0.55 else (24 if f < 0.75 else (32 if f < 0.9 else 48))))
 
 
 def wl_linearity(ctx, R):
-    rounds = ctx.pick(3, 60)
+    from ..util import precision
+    rounds = ctx.pick(3, 1500)
     k = -1
     st = [0]
     for rnd in range(rounds):
-        lo, hi = _sizes(rnd)
+        lo, hi = _sizes(rnd, rounds)
         for route in ('focus', 'unfocus'):
             for method in METHODS:
                 for acls in ARRAY_CLASSES:
@@ -261,34 +438,46 @@ def wl_linearity(ctx, R):
                             continue
                         _tick(st)
                         rng = case_rng(ctx, 1, k)
-                        v = int(rng.integers(1 << 30))       # per-case variant number, decoupled from the class loops
                         ocls = ['sq:e', 'sq:o', 'nonsq'][int(rng.integers(3))]
                         in_shape, idx, efl, wvl, odx, samples, shift, s = setup_fixed(rng, route, acls, ocls, scls, lo, hi)
                         seed = int(rng.integers(2**31 - 1))
-                        use_wf = bool(v % 2)
-                        desc = {'rel': 'linearity', 'class': f'linearity:{route}:{method}:{acls}->{ocls}:shift={scls}', 'route': route,
+                        desc = {'rel': 'linearity', 'route': route,
                                 'method': method, 'in_shape': in_shape, 'samples': samples, 'input_dx': idx, 'efl': efl, 'wavelength': wvl,
-                                'output_dx': odx, 'shift_samples': s, 'seed': seed, 'api': 'Wavefront' if use_wf else 'function'}
+                                'output_dx': odx, 'shift_samples': s, 'seed': seed}
+                        v, sh, bits, dbits, lay = variant(rng, scls, shift, desc, f'linearity:{route}:{method}:{acls}->{ocls}:shift={scls}')
+                        use_wf = bool(v % 2)
+                        desc['api'] = 'Wavefront' if use_wf else 'function'
                         ctx.case(desc)
                         r2 = np.random.default_rng(seed)
-                        a, b = cnormal(r2, in_shape), cnormal(r2, in_shape)
+                        a, b = to_bits(cnormal(r2, in_shape), dbits), to_bits(cnormal(r2, in_shape), dbits)
                         al, be = complex(*r2.standard_normal(2)), complex(*r2.standard_normal(2))
                         key = f'C05/linearity/{route}/{method}'
-                        fa = R.fixed(route, a, idx, efl, wvl, odx, samples, shift, method, desc, key, use_wf)
-                        fb = R.fixed(route, b, idx, efl, wvl, odx, samples, shift, method, desc, key, use_wf)
-                        fc = R.fixed(route, al * a + be * b, idx, efl, wvl, odx, samples, shift, method, desc, key, use_wf)
-                        if fa is None or fb is None or fc is None:
+                        single = bits == 32 or dbits == 32
+                        rtol, atol = fixed_tolerance(ctx, single, sh, method, [in_shape] * 3, idx, odx, wvl, efl, [samples] * 3, s,
+                                                     [a, b, al * a + be * b], [abs(al), abs(be), 1.0])
+                        if rtol is None and atol is None:
                             continue
-                        close(ctx, 'linearity', fc, al * fa + be * fb, key,
-                                  f'{route}_fixed_sampling(method={method}) is not linear', desc, rtol=RTOL)
+
+                        def inst(shift_obj):
+                            fa = R.fixed(route, relayout(a, lay), idx, efl, wvl, odx, samples, shift_obj, method, desc, key, use_wf)
+                            fb = R.fixed(route, relayout(b, lay), idx, efl, wvl, odx, samples, shift_obj, method, desc, key, use_wf)
+                            c = (al * a + be * b).astype(a.dtype)
+                            fc = R.fixed(route, relayout(c, lay), idx, efl, wvl, odx, samples, shift_obj, method, desc, key, use_wf)
+                            if fa is None or fb is None or fc is None:
+                                return None
+                            return fc, al * fa + be * fb, None
+                        with precision(bits):
+                            judge(ctx, 'linearity', inst, sh, key, f'{route}_fixed_sampling(method={method}) is not linear', desc,
+                                  rtol=rtol or RTOL, abs_tol=atol)
 
 
 def wl_embedding(ctx, R):
-    rounds = ctx.pick(4, 120)
+    from ..util import precision
+    rounds = ctx.pick(4, 1600)
     k = -1
     st = [0]
     for rnd in range(rounds):
-        lo, hi = _sizes(rnd)
+        lo, hi = _sizes(rnd, rounds)
         for route in ('focus', 'unfocus'):
             for method in METHODS:
                 for acls in ARRAY_CLASSES:
@@ -299,7 +488,6 @@ def wl_embedding(ctx, R):
                                 continue
                             _tick(st)
                             rng = case_rng(ctx, 2, k)
-                            v = int(rng.integers(1 << 30))       # per-case variant number, decoupled from the class loops
                             ocls = ['sq:e', 'sq:o', 'nonsq'][int(rng.integers(3))]
                             in_shape, idx, efl, wvl, odx, samples, shift, s = setup_fixed(rng, route, acls, ocls, scls, lo, hi)
                             if emb == 'same-aspect':
@@ -310,28 +498,38 @@ def wl_embedding(ctx, R):
                                 if big == in_shape:
                                     big = (big[0] + 1, big[1])
                             seed = int(rng.integers(2**31 - 1))
-                            desc = {'rel': 'embedding', 'class': f'embedding:{route}:{method}:{acls}->{ocls}:{emb}:shift={scls}', 'route': route,
+                            desc = {'rel': 'embedding', 'route': route,
                                     'method': method, 'in_shape': in_shape, 'embedded_shape': big, 'samples': samples, 'input_dx': idx,
                                     'efl': efl, 'wavelength': wvl, 'output_dx': odx, 'shift_samples': s, 'seed': seed}
+                            v, sh, bits, dbits, lay = variant(rng, scls, shift, desc, f'embedding:{route}:{method}:{acls}->{ocls}:{emb}:shift={scls}')
                             ctx.case(desc)
-                            a = cnormal(np.random.default_rng(seed), in_shape)
+                            a = to_bits(cnormal(np.random.default_rng(seed), in_shape), dbits)
                             g = geom_label(route, method, [in_shape, big], [samples])
                             shifted = scls != '0'
                             key = rel_key('embedding', route, method, g, shifted)
-                            f1 = R.fixed(route, a, idx, efl, wvl, odx, samples, shift, method, desc, key)
-                            f2 = R.fixed(route, place(a, big), idx, efl, wvl, odx, samples, shift, method, desc, key)
-                            if f1 is None or f2 is None:
+                            single = bits == 32 or dbits == 32
+                            rtol, atol = fixed_tolerance(ctx, single, sh, method, [in_shape, big], idx, odx, wvl, efl, [samples] * 2, s, [a, a])
+                            if rtol is None and atol is None:
                                 continue
-                            close(ctx, 'embedding', f2, f1, key, rel_what('embedding', route, method, g), desc, rtol=RTOL,
-                                      modulus=shifted, compared='moduli' if shifted else 'complex')
+
+                            def inst(shift_obj):
+                                f1 = R.fixed(route, relayout(a, lay), idx, efl, wvl, odx, samples, shift_obj, method, desc, key)
+                                f2 = R.fixed(route, relayout(place(a, big), lay), idx, efl, wvl, odx, samples, shift_obj, method, desc, key)
+                                if f1 is None or f2 is None:
+                                    return None
+                                return f2, f1, None
+                            with precision(bits):
+                                judge(ctx, 'embedding', inst, sh, key, rel_what('embedding', route, method, g), desc, rtol=rtol or RTOL,
+                                      abs_tol=atol, modulus=shifted, compared='moduli' if shifted else 'complex')
 
 
 def wl_transpose(ctx, R):
-    rounds = ctx.pick(4, 100)
+    from ..util import precision
+    rounds = ctx.pick(4, 1200)
     k = -1
     st = [0]
     for rnd in range(rounds):
-        lo, hi = _sizes(rnd)
+        lo, hi = _sizes(rnd, rounds)
         for route in ('focus', 'unfocus'):
             for method in METHODS:
                 for acls in ARRAY_CLASSES:
@@ -342,22 +540,35 @@ def wl_transpose(ctx, R):
                                 continue
                             _tick(st)
                             rng = case_rng(ctx, 3, k)
-                            v = int(rng.integers(1 << 30))       # per-case variant number, decoupled from the class loops
                             in_shape, idx, efl, wvl, odx, samples, shift, s = setup_fixed(rng, route, acls, ocls, scls, lo, hi)
                             seed = int(rng.integers(2**31 - 1))
-                            desc = {'rel': 'transpose', 'class': f'transpose:{route}:{method}:{acls}->{ocls}:shift={scls}', 'route': route,
+                            desc = {'rel': 'transpose', 'route': route,
                                     'method': method, 'in_shape': in_shape, 'samples': samples, 'input_dx': idx, 'efl': efl,
                                     'wavelength': wvl, 'output_dx': odx, 'shift_samples': s, 'seed': seed}
+                            v, sh, bits, dbits, lay = variant(rng, scls, shift, desc, f'transpose:{route}:{method}:{acls}->{ocls}:shift={scls}')
                             ctx.case(desc)
-                            a = cnormal(np.random.default_rng(seed), in_shape)
+                            a = to_bits(cnormal(np.random.default_rng(seed), in_shape), dbits)
                             g = geom_label(route, method, [in_shape, in_shape[::-1]], [samples, samples[::-1]])
                             shifted = scls != '0'
                             key = rel_key('transpose', route, method, g, shifted)
-                            f1 = R.fixed(route, a, idx, efl, wvl, odx, samples, shift, method, desc, key)
-                            f2 = R.fixed(route, np.ascontiguousarray(a.T), idx, efl, wvl, odx, samples[::-1], shift[::-1], method, desc, key)
-                            if f1 is None or f2 is None:
+                            single = bits == 32 or dbits == 32
+                            rtol, atol = fixed_tolerance(ctx, single, sh, method, [in_shape, in_shape[::-1]], idx, odx, wvl, efl,
+                                                         [samples, samples[::-1]], s, [a, a])
+                            if rtol is None and atol is None:
                                 continue
-                            close(ctx, 'transposition', f2, f1.T, key, rel_what('transpose', route, method, g), desc, rtol=RTOL)
+
+                            def inst(shift_obj):
+                                f1 = R.fixed(route, relayout(a, lay), idx, efl, wvl, odx, samples, shift_obj, method, desc, key)
+                                # the transposed problem gets the same container type with its two entries swapped (a reversed view
+                                # of the caller's array for ndarrays -- it shares the caller's memory, like the original)
+                                swapped = shift_obj[::-1]
+                                at = a.T if lay == 'T-view' else relayout(np.ascontiguousarray(a.T), lay)
+                                f2 = R.fixed(route, at, idx, efl, wvl, odx, samples[::-1], swapped, method, desc, key)
+                                if f1 is None or f2 is None:
+                                    return None
+                                return f2, f1.T, None
+                            with precision(bits):
+                                judge(ctx, 'transposition', inst, sh, key, rel_what('transpose', route, method, g), desc, rtol=rtol or RTOL, abs_tol=atol)
 
 
 def tfb_label(method, pupil_shape, P_):
@@ -406,12 +617,38 @@ def exact_band(rng, acls, lo, hi):
     return wvl, efl, dx, shp, P_, fdx
 
 
+def tfb_tolerance(ctx, single, sh, method, a, shp, mshape, dx, fdx, wvl, efl, s, mask_max=1.0):
+    """(rtol, abs_tol) for relations between to_fpm_and_back results.  Single precision: the two legs' C01 tolerances
+    (max of them) of ||a||_2 * max|mask| -- the bound C02 uses for a two-leg trip; None when ill-conditioned."""
+    if not single:
+        return (1e-4 if sh.lowprec else RTOL), None
+    r1, _ = single_tol(method, shp, dx, fdx, wvl, efl, mshape, s)
+    r2, _ = single_tol(method, mshape, fdx, dx, wvl, efl, shp, s)
+    if r1 is None or r2 is None:
+        ctx.skip('float32: kernel phase beyond the resolution of the working precision (tolerance would exceed 3e-2)')
+        return None, None
+    return None, max(r1, r2) * float(np.sqrt(np.sum(np.abs(a) ** 2))) * max(mask_max, 1e-300) * 2
+
+
+def ones_mask(v, shape):
+    """An all-pass mask as float, complex, integer or boolean array."""
+    c = v % 5
+    if c == 0:
+        return np.ones(shape, dtype=complex)
+    if c == 1:
+        return np.ones(shape, dtype=np.int64)
+    if c == 2:
+        return np.ones(shape, dtype=bool)
+    return np.ones(shape)
+
+
 def wl_allpass(ctx, R):
-    rounds = ctx.pick(8, 240)
+    from ..util import precision
+    rounds = ctx.pick(8, 2400)
     k = -1
     st = [0]
     for rnd in range(rounds):
-        lo, hi = _sizes(rnd)
+        lo, hi = _sizes(rnd, rounds)
         for method in METHODS:
             for acls in ARRAY_CLASSES:
                 for scls in SHIFTS:
@@ -423,49 +660,64 @@ def wl_allpass(ctx, R):
                             continue                        # Wavefront.babinet has no shift argument
                         _tick(st)
                         rng = case_rng(ctx, 4, k)
-                        v = int(rng.integers(1 << 30))       # per-case variant number, decoupled from the class loops
                         wvl, efl, dx, shp, P_, fdx = exact_band(rng, acls, lo, hi)
                         s = draw_shift(rng, scls)
                         shift = (s[0] * fdx, s[1] * fdx)
                         seed = int(rng.integers(2**31 - 1))
-                        use_wf = bool(v % 2)
                         label = tfb_label(method, shp, P_)
                         shifted = scls != '0'
                         key = tfb_key(method, label, shifted)
-                        desc = {'rel': 'allpass-' + rel, 'class': f'allpass:{rel}:{method}:{acls}:{parity(P_)}-band:shift={scls}', 'method': method,
+                        desc = {'rel': 'allpass-' + rel, 'method': method,
                                 'shape': shp, 'band_samples': P_, 'dx': dx, 'efl': efl, 'wavelength': wvl, 'fpm_dx': fdx,
-                                'shift_samples': s, 'seed': seed, 'api': 'Wavefront' if use_wf else 'function'}
+                                'shift_samples': s, 'seed': seed}
+                        v, sh, bits, dbits, lay = variant(rng, scls, shift, desc, f'allpass:{rel}:{method}:{acls}:{parity(P_)}-band:shift={scls}')
+                        use_wf = bool(v % 2)
+                        desc['api'] = 'Wavefront' if use_wf else 'function'
                         ctx.case(desc)
                         r2 = np.random.default_rng(seed)
-                        a = cnormal(r2, shp)
+                        a = to_bits(cnormal(r2, shp), dbits)
+                        single = bits == 32 or dbits == 32
+                        rtol, atol = tfb_tolerance(ctx, single, sh, method, a, shp, (P_, P_), dx, fdx, wvl, efl, s)
+                        if rtol is None and atol is None:
+                            continue
                         if rel == 'identity':
-                            ones = np.ones((P_, P_)) if v % 3 else np.ones((P_, P_), dtype=complex)
-                            o = R.tfb(a, dx, efl, wvl, ones, fdx, shift, method, desc, key, use_wf, more=bool((v // 7) % 3 == 0))
-                            if o is None:
-                                continue
-                            close(ctx, 'allpass-identity', o, a, key, tfb_what(method, label, shifted), desc, rtol=RTOL)
+                            ones = ones_mask(v // 7, (P_, P_))
+                            desc['mask_dtype'] = str(ones.dtype)
+
+                            def inst(shift_obj):
+                                o = R.tfb(relayout(a, lay), dx, efl, wvl, ones, fdx, shift_obj, method, desc, key, use_wf, more=bool((v // 7) % 3 == 0))
+                                if o is None:
+                                    return None
+                                return o, a, None
+                            with precision(bits):
+                                judge(ctx, 'allpass-identity', inst, sh, key, tfb_what(method, label, shifted), desc, rtol=rtol or RTOL, abs_tol=atol)
                         else:
-                            m = r2.random((P_, P_)) if (v // 3) % 4 else cnormal(r2, (P_, P_))
+                            m = to_bits(r2.random((P_, P_)) if (v // 3) % 4 else cnormal(r2, (P_, P_)), dbits)
                             lyot = None if (v // 5) % 3 == 0 else (r2.random(shp) > 0.3).astype(float)
-                            t = R.tfb(a, dx, efl, wvl, m, fdx, (0, 0), method, desc, key)
-                            out = [None]
-                            with ctx.guard(key, desc, what=f'Wavefront.babinet(method={method})'):
-                                out[0] = R.P.Wavefront(a, wvl, dx).babinet(efl, lyot, m, fdx, method=method).data
-                            if t is None or out[0] is None:
-                                continue
-                            ref = t if lyot is None else lyot * t
-                            close(ctx, 'babinet.exact-band', out[0], ref, key,
+
+                            def inst(shift_obj):
+                                t = R.tfb(relayout(a, lay), dx, efl, wvl, relayout(m, lay), fdx, (0, 0), method, desc, key)
+                                out = [None]
+                                with ctx.guard(key, desc, what=f'Wavefront.babinet(method={method})'):
+                                    out[0] = np.array(R.P.Wavefront(relayout(a, lay), wvl, dx).babinet(efl, lyot, relayout(m, lay), fdx, method=method).data, copy=True)
+                                if t is None or out[0] is None:
+                                    return None
+                                ref = t if lyot is None else lyot * t
+                                return out[0], ref, float(np.max(np.abs(a)))
+                            with precision(bits):
+                                judge(ctx, 'babinet.exact-band', inst, sh, key,
                                       tfb_what(method, label, False) + ' [seen through Babinet: a - tfb(1-m) != tfb(m)]', desc,
-                                      rtol=RTOL, scale=float(np.max(np.abs(a))))
+                                      rtol=rtol or RTOL, abs_tol=None if atol is None else atol * max(1.0, float(np.max(np.abs(m)))) * 2)
 
 
 def wl_masks(ctx, R):
     """Additivity / linearity in the mask and the Babinet composition at arbitrary mask sampling (not the exact band)."""
-    rounds = ctx.pick(4, 120)
+    from ..util import precision
+    rounds = ctx.pick(4, 900)
     k = -1
     st = [0]
     for rnd in range(rounds):
-        lo, hi = _sizes(rnd)
+        lo, hi = _sizes(rnd, rounds)
         for method in METHODS:
             for acls in ARRAY_CLASSES:
                 for mcls in ('sq:e', 'sq:o', 'nonsq'):
@@ -478,7 +730,6 @@ def wl_masks(ctx, R):
                                 continue
                             _tick(st)
                             rng = case_rng(ctx, 5, k)
-                            v = int(rng.integers(1 << 30))       # per-case variant number, decoupled from the class loops
                             wvl, efl, dx = physical(rng)
                             shp = draw_shape(rng, acls, lo, hi)
                             mshape = draw_shape(rng, mcls, lo, hi + 6)
@@ -486,55 +737,199 @@ def wl_masks(ctx, R):
                             s = draw_shift(rng, scls)
                             shift = (s[0] * fdx, s[1] * fdx)
                             seed = int(rng.integers(2**31 - 1))
-                            use_wf = bool(v % 2)
-                            cplx = bool((v // 2) % 2)
-                            desc = {'rel': 'mask-' + rel, 'class': f'mask:{rel}:{method}:{acls}:mask={mcls}:{"complex" if cplx else "real"}:shift={scls}',
+                            desc = {'rel': 'mask-' + rel,
                                     'method': method, 'shape': shp, 'mask_shape': mshape, 'dx': dx, 'efl': efl, 'wavelength': wvl,
-                                    'fpm_dx': fdx, 'shift_samples': s, 'seed': seed, 'api': 'Wavefront' if use_wf else 'function'}
+                                    'fpm_dx': fdx, 'shift_samples': s, 'seed': seed}
+                            v0 = int(np.random.default_rng([seed, 3]).integers(1 << 30))
+                            mkind = ('complex', 'real', 'real', 'int', 'bool')[(v0 // 2) % 5]
+                            v, sh, bits, dbits, lay = variant(rng, scls, shift, desc,
+                                                              f'mask:{rel}:{method}:{acls}:mask={mcls}:{mkind}:shift={scls}')
+                            use_wf = bool(v % 2)
+                            desc['api'] = 'Wavefront' if use_wf else 'function'
                             ctx.case(desc)
                             r2 = np.random.default_rng(seed)
-                            a = cnormal(r2, shp)
-                            m1 = cnormal(r2, mshape) if cplx else r2.random(mshape)
-                            m2 = cnormal(r2, mshape) if cplx else r2.random(mshape)
-                            one = np.ones(mshape)
-                            scale = None
-                            if rel == 'additivity':
-                                key = f'C05/mask-additivity/{method}'
-                                t1 = R.tfb(a, dx, efl, wvl, m1, fdx, shift, method, desc, key, use_wf)
-                                t2 = R.tfb(a, dx, efl, wvl, 1 - m1, fdx, shift, method, desc, key, use_wf)
-                                t3 = R.tfb(a, dx, efl, wvl, one, fdx, shift, method, desc, key, use_wf, more=bool((v // 7) % 3 == 0))
-                                if t1 is None or t2 is None or t3 is None:
-                                    continue
-                                close(ctx, 'mask-additivity', t1 + t2, t3, key,
+                            a = to_bits(cnormal(r2, shp), dbits)
+
+                            def mk():
+                                if mkind == 'complex':
+                                    return to_bits(cnormal(r2, mshape), dbits)
+                                if mkind == 'int':
+                                    return r2.integers(0, 4, mshape)
+                                if mkind == 'bool':
+                                    return r2.random(mshape) < 0.5
+                                return to_bits(r2.random(mshape), dbits)
+                            m1, m2 = mk(), mk()
+                            one = ones_mask(v // 11, mshape)
+                            single = bits == 32 or dbits == 32
+                            mmax = float(max(np.max(np.abs(m1)), np.max(np.abs(m2)), 1.0))
+                            rtol, atol = tfb_tolerance(ctx, single, sh, method, a, shp, mshape, dx, fdx, wvl, efl, s, mask_max=mmax)
+                            if rtol is None and atol is None:
+                                continue
+                            A = relayout(a, lay)
+                            with precision(bits):
+                                if rel == 'additivity':
+                                    key = f'C05/mask-additivity/{method}'
+                                    comp = (~m1) if mkind == 'bool' else 1 - m1
+
+                                    def inst(shift_obj):
+                                        t1 = R.tfb(A, dx, efl, wvl, relayout(m1, lay), fdx, shift_obj, method, desc, key, use_wf)
+                                        t2 = R.tfb(A, dx, efl, wvl, comp, fdx, shift_obj, method, desc, key, use_wf)
+                                        t3 = R.tfb(A, dx, efl, wvl, one, fdx, shift_obj, method, desc, key, use_wf, more=bool((v // 7) % 3 == 0))
+                                        if t1 is None or t2 is None or t3 is None:
+                                            return None
+                                        return t1 + t2, t3, max(float(np.max(np.abs(t3))), float(np.max(np.abs(t1))))
+                                    judge(ctx, 'mask-additivity', inst, sh, key,
                                           f'to_fpm_and_back(method={method}): mask and complement do not sum to the unmasked result', desc,
-                                          rtol=RTOL, scale=max(float(np.max(np.abs(t3))), float(np.max(np.abs(t1)))))
-                            elif rel == 'linearity':
-                                key = f'C05/mask-linearity/{method}'
-                                al, be = complex(*r2.standard_normal(2)), complex(*r2.standard_normal(2))
-                                t1 = R.tfb(a, dx, efl, wvl, m1, fdx, shift, method, desc, key, use_wf)
-                                t2 = R.tfb(a, dx, efl, wvl, m2, fdx, shift, method, desc, key, use_wf)
-                                t3 = R.tfb(a, dx, efl, wvl, al * m1 + be * m2, fdx, shift, method, desc, key, use_wf)
-                                if t1 is None or t2 is None or t3 is None:
-                                    continue
-                                close(ctx, 'mask-linearity', t3, al * t1 + be * t2, key,
-                                          f'to_fpm_and_back(method={method}) is not linear in the mask', desc, rtol=RTOL,
-                                          scale=abs(al) * float(np.max(np.abs(t1))) + abs(be) * float(np.max(np.abs(t2))))
-                            else:
-                                key = f'C05/babinet/{method}'
-                                lyot = None if (v // 5) % 3 == 0 else (cnormal(r2, shp) if cplx else (r2.random(shp) > 0.3).astype(float))
-                                t = R.tfb(a, dx, efl, wvl, 1 - m1, fdx, (0, 0), method, desc, key)
-                                out = [None]
-                                with ctx.guard(key, desc, what=f'Wavefront.babinet(method={method})'):
-                                    if (v // 7) % 3 == 0:
-                                        out[0] = R.P.Wavefront(a, wvl, dx).babinet(efl, lyot, m1, fdx, method=method, return_more=True)[0].data
-                                    else:
-                                        out[0] = R.P.Wavefront(a, wvl, dx).babinet(efl, lyot, m1, fdx, method=method).data
-                                if t is None or out[0] is None:
-                                    continue
-                                ref = (a - t) if lyot is None else lyot * (a - t)
-                                close(ctx, 'babinet', out[0], ref, key,
-                                          f'Wavefront.babinet(method={method}) != lyot * (field - to_fpm_and_back(1 - fpm))', desc, rtol=RTOL,
-                                          scale=float(np.max(np.abs(a))) + float(np.max(np.abs(t))))
+                                          rtol=rtol or RTOL, abs_tol=None if atol is None else 3 * atol)
+                                elif rel == 'linearity':
+                                    key = f'C05/mask-linearity/{method}'
+                                    al, be = complex(*r2.standard_normal(2)), complex(*r2.standard_normal(2))
+                                    f1, f2 = m1.astype(float) if mkind in ('int', 'bool') else m1, m2.astype(float) if mkind in ('int', 'bool') else m2
+
+                                    def inst(shift_obj):
+                                        t1 = R.tfb(A, dx, efl, wvl, relayout(m1, lay), fdx, shift_obj, method, desc, key, use_wf)
+                                        t2 = R.tfb(A, dx, efl, wvl, m2, fdx, shift_obj, method, desc, key, use_wf)
+                                        t3 = R.tfb(A, dx, efl, wvl, al * f1 + be * f2, fdx, shift_obj, method, desc, key, use_wf)
+                                        if t1 is None or t2 is None or t3 is None:
+                                            return None
+                                        return t3, al * t1 + be * t2, abs(al) * float(np.max(np.abs(t1))) + abs(be) * float(np.max(np.abs(t2)))
+                                    judge(ctx, 'mask-linearity', inst, sh, key, f'to_fpm_and_back(method={method}) is not linear in the mask', desc,
+                                          rtol=rtol or RTOL, abs_tol=None if atol is None else (abs(al) + abs(be) + abs(al) + abs(be)) * atol)
+                                else:
+                                    key = f'C05/babinet/{method}'
+                                    cplx = mkind == 'complex'
+                                    lyot = None if (v // 5) % 3 == 0 else (cnormal(r2, shp) if cplx else (r2.random(shp) > 0.3).astype(float))
+                                    comp = (~m1) if mkind == 'bool' else 1 - m1
+
+                                    def inst(shift_obj):
+                                        t = R.tfb(A, dx, efl, wvl, comp, fdx, (0, 0), method, desc, key)
+                                        out = [None]
+                                        with ctx.guard(key, desc, what=f'Wavefront.babinet(method={method})'):
+                                            if (v // 7) % 3 == 0:
+                                                out[0] = R.P.Wavefront(A, wvl, dx).babinet(efl, lyot, m1, fdx, method=method, return_more=True)[0].data
+                                            else:
+                                                out[0] = R.P.Wavefront(A, wvl, dx).babinet(efl, lyot, m1, fdx, method=method).data
+                                        if t is None or out[0] is None:
+                                            return None
+                                        ref = (a - t) if lyot is None else lyot * (a - t)
+                                        return np.array(out[0], copy=True), ref, float(np.max(np.abs(a))) + float(np.max(np.abs(t)))
+                                    lmax = 1.0 if lyot is None else float(np.max(np.abs(lyot)))
+                                    judge(ctx, 'babinet', inst, sh, key,
+                                          f'Wavefront.babinet(method={method}) != lyot * (field - to_fpm_and_back(1 - fpm))', desc,
+                                          rtol=rtol or RTOL, abs_tol=None if atol is None else 3 * atol * max(lmax, 1.0))
+
+
+# ------------------------------------------------------------------------------------------ class B: histories
+def wl_history(ctx, R):
+    """Relation instances after other traffic on the shared executors at the SAME array sizes: shifted calls with other
+    wavelengths / focal lengths / spacings (the basis caches miss, anything keyed on the sizes alone hits), the same relation
+    run in the float32 configuration first (32 -> 64 switch), both methods, no cache clearing inside a history.  The later
+    relation instance is judged at the full float64 tolerance."""
+    from prysm import fttools
+    from prysm.conf import config
+    n = ctx.pick(400, 300000)
+    maxlen = ctx.pick(4, 10)
+    for k in range(n):
+        if not ctx.mine(k):
+            continue
+        rng = case_rng(ctx, 6, k)
+        acls = ARRAY_CLASSES[int(rng.integers(len(ARRAY_CLASSES)))] if rng.random() < 0.4 else ('sq:e', 'sq:o')[int(rng.integers(2))]
+        in_shape = draw_shape(rng, acls, 4, ctx.pick(9, 24))
+        ocls = ('sq:e', 'sq:o', 'nonsq')[int(rng.integers(3))]
+        samples = draw_shape(rng, ocls, 4, ctx.pick(13, 40))
+        big = (in_shape[0] + int(rng.integers(1, 6)), in_shape[1] + int(rng.integers(1, 6)))
+        method = 'mdft' if rng.random() < 0.7 else 'czt'
+        L = int(rng.integers(2, maxlen + 1))
+        steps = []
+        for j in range(L):
+            kind = ('traffic', 'traffic', 'embedding', 'transpose', 'linearity', 'allpass', 'p32-then-p64')[int(rng.integers(7))] if j < L - 1 else \
+                ('embedding', 'transpose', 'linearity', 'allpass')[int(rng.integers(4))]
+            steps.append((kind, ('focus', 'unfocus')[int(rng.integers(2))], SHIFTS[int(rng.integers(1, 3))] if kind == 'traffic' else SHIFTS[int(rng.integers(3))],
+                          int(rng.integers(2**31 - 1))))
+        desc0 = {'rel': 'history', 'class': f'history:{method}:{acls}->{ocls}:len{L}:{"+".join(sorted(set(s_[0] for s_ in steps)))}',
+                 'method': method, 'in_shape': in_shape, 'embedded_shape': big, 'samples': samples, 'steps': [list(s_) for s_ in steps], 'k': k}
+        ctx.case(desc0)
+        fttools.mdft.clear()
+        fttools.czt.clear()
+        config.precision = 64
+        try:
+            for j, (kind, route, scls, seed) in enumerate(steps):
+                ctx.observe('history.ops')
+                r2 = np.random.default_rng(seed)
+                wvl, efl, dx = physical(r2)
+                s = draw_shift(r2, scls)
+                desc = dict(desc0, step=j, step_kind=kind, route=route, wavelength=wvl, efl=efl, dx=dx, shift_samples=s, seed=seed)
+                shifted = scls != '0'
+                if route == 'focus':
+                    idx = dx
+                    odx = wvl * efl / (max(in_shape) * dx) * logu(r2, 0.3, 2.5)
+                else:
+                    odx = dx
+                    idx = wvl * efl / (max(samples) * dx) * logu(r2, 0.3, 2.5)
+                sh = ShiftArg(shift_kind(seed, scls), (s[0] * odx, s[1] * odx))
+                rt = 1e-4 if sh.lowprec else RTOL
+                a = cnormal(r2, in_shape)
+                if kind == 'traffic':
+                    R.fixed(route, a, idx, efl, wvl, odx, samples, sh.obj, method, desc, f'C05/history/{method}')
+                    R.fixed(route, place(a, big), idx, efl, wvl, odx, samples, sh.obj, method, desc, f'C05/history/{method}')
+                    continue
+                if kind == 'p32-then-p64':
+                    config.precision = 32
+                    try:
+                        R.fixed(route, a.astype(np.complex64), idx, efl, wvl, odx, samples, sh.obj, method, desc, f'C05/history/{method}')
+                        R.fixed(route, place(a, big).astype(np.complex64), idx, efl, wvl, odx, samples, sh.obj, method, desc, f'C05/history/{method}')
+                    finally:
+                        config.precision = 64
+                    kind = 'embedding'
+                if kind == 'embedding':
+                    g = geom_label(route, method, [in_shape, big], [samples])
+                    key = rel_key('embedding', route, method, g, shifted)
+
+                    def inst(shift_obj):
+                        f1 = R.fixed(route, a, idx, efl, wvl, odx, samples, shift_obj, method, desc, key)
+                        f2 = R.fixed(route, place(a, big), idx, efl, wvl, odx, samples, shift_obj, method, desc, key)
+                        return None if (f1 is None or f2 is None) else (f2, f1, None)
+                    judge(ctx, 'embedding', inst, sh, key, rel_what('embedding', route, method, g) + ' [after other calls at the same array sizes]',
+                          desc, rtol=rt, modulus=shifted)
+                elif kind == 'transpose':
+                    g = geom_label(route, method, [in_shape, in_shape[::-1]], [samples, samples[::-1]])
+                    key = rel_key('transpose', route, method, g, shifted)
+
+                    def inst(shift_obj):
+                        f1 = R.fixed(route, a, idx, efl, wvl, odx, samples, shift_obj, method, desc, key)
+                        f2 = R.fixed(route, np.ascontiguousarray(a.T), idx, efl, wvl, odx, samples[::-1], shift_obj[::-1], method, desc, key)
+                        return None if (f1 is None or f2 is None) else (f2, f1.T, None)
+                    judge(ctx, 'transposition', inst, sh, key, rel_what('transpose', route, method, g) + ' [after other calls at the same array sizes]',
+                          desc, rtol=rt)
+                elif kind == 'linearity':
+                    key = f'C05/linearity/{route}/{method}'
+                    b = cnormal(r2, in_shape)
+                    al, be = complex(*r2.standard_normal(2)), complex(*r2.standard_normal(2))
+
+                    def inst(shift_obj):
+                        fa = R.fixed(route, a, idx, efl, wvl, odx, samples, shift_obj, method, desc, key)
+                        fb = R.fixed(route, b, idx, efl, wvl, odx, samples, shift_obj, method, desc, key)
+                        fc = R.fixed(route, al * a + be * b, idx, efl, wvl, odx, samples, shift_obj, method, desc, key)
+                        return None if (fa is None or fb is None or fc is None) else (fc, al * fa + be * fb, None)
+                    judge(ctx, 'linearity', inst, sh, key, f'{route}_fixed_sampling(method={method}) is not linear [after other calls at the same array sizes]',
+                          desc, rtol=rt)
+                else:
+                    # all-pass identity on the exact band with the history's pupil shape; the band size is fixed per history
+                    P_ = max(in_shape) + 3
+                    fdx = wvl * efl / (dx * P_)
+                    sh2 = ShiftArg(shift_kind(seed, scls), (s[0] * fdx, s[1] * fdx))
+                    label = tfb_label(method, in_shape, P_)
+                    key = tfb_key(method, label, shifted)
+
+                    def inst(shift_obj):
+                        o = R.tfb(a, dx, efl, wvl, np.ones((P_, P_)), fdx, shift_obj, method, desc, key)
+                        return None if o is None else (o, a, None)
+                    judge(ctx, 'allpass-identity', inst, sh2, key, tfb_what(method, label, shifted) + ' [after other calls at the same array sizes]',
+                          desc, rtol=1e-4 if sh2.lowprec else RTOL)
+        finally:
+            config.precision = 64
+    fttools.mdft.clear()
+    fttools.czt.clear()
 
 
 def replay(ctx, rec):
